@@ -397,6 +397,23 @@ func writeFragments(w io.Writer, head, body []byte, fragments []int) error {
 	return nil
 }
 
+// DoDuring sends r over a transport that can hold a request half received (the in-process engine) and runs during()
+// when the server asks for body fragment number at (1 = the first one).
+func DoDuring(t Transport, r *Req, at int, during func()) (*Resp, error) {
+	td, ok := t.(interface {
+		RoundTripDuring(head, body []byte, fragments []int, at int, during func()) ([]byte, error)
+	})
+	if !ok {
+		return nil, fmt.Errorf("transport cannot interleave requests")
+	}
+	head, body := r.Encode()
+	raw, err := td.RoundTripDuring(head, body, r.Fragments, at, during)
+	if err != nil {
+		return nil, err
+	}
+	return ParseResp(r.Method, raw), nil
+}
+
 // Do sends r over t.
 func Do(t Transport, r *Req) (*Resp, error) {
 	head, body := r.Encode()
